@@ -225,11 +225,17 @@ func VerifC09_TypeConflict() {
 		return
 	}
 	t1, v1, t2 := vrt.Int64("t1"), vrt.Int64("v1"), vrt.Int64("t2")
+	// the conflicting batch for bb: a float alone, or an integer followed by a float (the first value
+	// has the key's type, a later one does not)
+	conflicting := []Value{NewFloatValue(t2, 1.5)}
+	if vrt.Choose("conflict_after_matching_value", 0, 1) == 1 {
+		conflicting = []Value{NewIntegerValue(vrt.Int64("t3"), 9), NewFloatValue(t2, 1.5)}
+	}
 	err = c.WriteMulti(map[string][]Value{
 		"a":  {NewIntegerValue(t1, v1)},
-		"bb": {NewFloatValue(t2, 1.5)},
+		"bb": conflicting,
 	})
-	if limit > 0 && limit < 18+32 {
+	if limit > 0 && limit < uint64(18+16+16*len(conflicting)) {
 		vrt.Assert(err != nil, "over-limit write is rejected")
 	} else {
 		vrt.Assert(err != nil, "type conflict is reported")
